@@ -288,7 +288,9 @@ def diff_trees(a, b, path=''):
     kind = a[0]
     ca, cb = a[1], b[1]
     if kind in ('n', 'u', 'o', 'l') and len(ca) != len(cb):
-        return [(path + kind + '#', show(a), show(b))]
+        # an absent value where a scaled quantity (float) should be is also C10's business
+        isf = kind == 'n' and any(isinstance(x[1], str) and x[0] == 'f' for x in ca + cb)
+        return [(path + kind + ('#f' if isf else '#'), show(a), show(b))]
     out = []
     if len(ca) != len(cb):
         out.append((path + kind + '#', show(a), show(b)))
@@ -310,6 +312,8 @@ def attribute(path):
         if last in 'e' or path.endswith('ec'):
             props.add('C12')
         return props
+    if path.endswith('#f'):
+        return {'C11', 'C10'}
     if path.endswith('#'):
         k = path[-2]
         return {'n': {'C11'}, 'u': {'C12'}, 'l': {'C14'}, 'o': {'C14'} if 'v' in path else {'C07'},
